@@ -13,7 +13,7 @@ ATOM_MAKERS = [
     lambda r: r.choice([True, False]),
     lambda r: r.choice([b"", b"ab"]),
 ]
-SIMPLE_CLASSES = [fx.A, fx.B, fx.C, fx.D, fx.E, fx.F, fx.X, fx.Y, fx.XY1, fx.YX1, fx.Outer, fx.Outer.Inner, fx.Falsy]
+SIMPLE_CLASSES = [fx.A, fx.B, fx.C, fx.D, fx.E, fx.F, fx.X, fx.Y, fx.XY1, fx.YX1, fx.Outer, fx.Outer.Inner, fx.Falsy, fx.WithCall]
 CLASS_OBJS = [int, str, fx.A, fx.B, fx.D, fx.MyList, type(None), fx.Outer.Inner, fx.Falsy]
 CALLABLES = [fx.some_function, len, (lambda: 0), [].append, fx.A().__init__]
 KEYS = ["a", "b", "c", "x", "y", "k1", "k2", "long_key", "q", "z", "w", "v"]
